@@ -5,6 +5,9 @@
 #include <mustache/ecs/id_deff.hpp>
 #include <mustache/ecs/component_mask.hpp>
 
+#ifdef MUSTACHE_VERIF
+namespace mustache { namespace verif { struct Access; } }
+#endif
 namespace mustache {
     class MemoryManager;
 
@@ -37,6 +40,9 @@ namespace mustache {
 
         [[nodiscard]] uint32_t numComponents() const noexcept;
         [[nodiscard]] uint32_t chunkSize() const noexcept;
+#ifdef MUSTACHE_VERIF
+        friend struct mustache::verif::Access; // verification hook: read-only access for harnesses
+#endif
     protected:
         uint32_t chunk_size_;
         std::vector<WorldVersion, Allocator<WorldVersion> > chunk_versions_; // per chunk component version
